@@ -227,6 +227,27 @@ def build_harness():
     except OSError:
         pass
     rc, out = sh(["go", "build", "-tags", "verif", "-o", os.path.join(BIN, "harness"), "."], cwd=hdir, timeout=900)
+    if rc != 0 and os.environ.get("VERIF_STRICT_HARNESS") != "1":
+        # another vertical's file may be mid-edit: build a copy without the files that do not compile
+        # (a vertical whose own file is dropped then fails with 'unknown property')
+        import shutil
+        bdir = os.path.join(WORK, "harness_build")
+        dropped = set()
+        for _ in range(6):
+            bad = set(re.findall(r"^\./([A-Za-z0-9_]+\.go):\d+", out, re.M)) - {"main.go"}
+            if not bad or bad <= dropped:
+                break
+            dropped |= bad
+            shutil.rmtree(bdir, ignore_errors=True)
+            os.makedirs(bdir)
+            for fn in os.listdir(hdir):
+                if (fn.endswith(".go") and fn not in dropped) or fn in ("go.mod", "go.sum"):
+                    shutil.copy(os.path.join(hdir, fn), os.path.join(bdir, fn))
+            rc, out2 = sh(["go", "build", "-tags", "verif", "-o", os.path.join(BIN, "harness"), "."], cwd=bdir, timeout=900)
+            if rc == 0:
+                print("note: harness built without files that do not compile right now: %s" % ", ".join(sorted(dropped)))
+                return 0, out2
+            out = out2
     return rc, out
 
 
